@@ -4,6 +4,7 @@ Imports only Model/Spec/Driver so that `drv_C19` links independently of the proo
 -/
 import CaddyModel.C19.Spec
 import CaddyModel.C19.Driver
+import CaddyModel.C19.ClientAuth
 
 namespace CaddyModel.C19
 
@@ -87,6 +88,24 @@ example : isAscii wLongSecret = false := by decide
 -- the Kelvin sign is harmless: `K.t` lowers to `k.t`, so it selects the policy of `k.t`
 example : choose false [⟨[.sni [[107, 46, 116]]], false, true⟩, ⟨[], false, false⟩] ⟨[129, 46, 116], fun _ => false⟩ = .config 0 := by decide
 
+/-! ### `Active()` is not stable under provisioning -/
+
+/-- a block with verifier modules only: the built tls.Config requires a certificate, yet `Active()`
+    asked after provisioning says false (`VerifiersRaw` was zeroed by LoadModule) -/
+theorem active_after_provision_full_fails :
+    ∃ c b, provisionPolicyCA (some c) = some b ∧ activeBefore (some c) = true ∧
+      b.bits.auth = .requireAnyClientCert ∧ b.activeAfter = false :=
+  ⟨⟨false, .none, .none, .none, true, .empty⟩, _, rfl, by decide, by decide, by decide⟩
+
+/-- observation (client-auth correctness, not this property): `provision` swallows the error of an
+    unreadable PEM file / undecodable CA certificate (`return nil`), so the policy demands
+    verification (`RequireAndVerifyClientCert`) with `ClientCAs == nil` — crypto/tls then verifies
+    against the system roots. -/
+theorem swallowed_ca_load_error :
+    ∃ c b, c.pemFiles = .bad ∧ provisionPolicyCA (some c) = some b ∧
+      b.bits.auth = .requireAndVerifyClientCert ∧ b.bits.clientCAs = false :=
+  ⟨⟨false, .none, .bad, .none, false, .empty⟩, _, rfl, rfl, by decide, by decide⟩
+
 /-- Protocol lines of the counter-examples; replayed on the implementation first on every run.
     Line 1 is `trapPolicies`/`trapHello` (written with the liveness flag 0 that the pinned tree
     shows: there first-match holds, the answer is `c0`; on a tree whose index is populated the
@@ -98,7 +117,10 @@ def witnessLines : List String := [
   -- `wPolicies`, site secret.test, SNI ſecret.test, Host secret.test (known finding); then the same
   -- through a real handshake against e2e server 0 (completes under the catch-all policy 1)
   "C19 enf n C/7365637265742e74657374/~;-/~/~ 7365637265742e74657374 1/c5bf65637265742e74657374/7365637265742e74657374",
-  "C19 e2e 0 p1 c5bf65637265742e74657374 7365637265742e74657374"
+  "C19 e2e 0 p1 c5bf65637265742e74657374 7365637265742e74657374",
+  -- verifier-only block (Active() flips with provisioning) and a CA file that does not load
+  "C19 ca 1000010",
+  "C19 ca 1002000"
 ]
 
 end CaddyModel.C19
